@@ -100,6 +100,10 @@ def designs(tier):
                     continue
                 yield {"d": "s2s", "g": g, "c": cnd, "resp": resp, "stat": st, "reps": 1, "keep": keep}
     yield {"d": "s2s", "g": [0, 0, 0], "c": [0, 1, 1], "resp": [1.0, None, 4.0], "stat": "rec", "reps": 2, "keep": True}
+    # randomize_in_strata on an Experiment whose strata the caller changed in place after a first randomization: the
+    # second randomization is uniform within the CURRENT strata, whatever the first one did
+    for g, s1, s2 in (([0, 1, 2, 3], [0, 0, 1, 1], [0, 1, 0, 1]), ([0, 1, 2], [5, 5, 5], [5, 6, 6]), ([0, 1, 2, 3], [0, 1, 1, 1], [0, 0, 0, 1])):
+        yield {"d": "restrat", "g": g, "s1": s1, "s2": s2}
     yield {"d": "rs_structure"}
 
 
@@ -199,6 +203,17 @@ def run(c):
                 leaves = explore(counted, limit=400)
         except (TreeTooLarge, RuntimeError):
             return {"tree_too_large": True}
+    elif d == "restrat":
+        def f(t):
+            R = NPC.Experiment.Randomizer(randomize=NPC.randomize_in_strata, seed=t)
+            n = len(c["g"])
+            e = NPC.Experiment(group=list(range(n)), response=[[0]] * n, covariate=[[v] for v in c["s1"]], randomizer=R)
+            e.randomize()
+            first = tuple(int(v) for v in e.group)
+            e.covariate[:, 0] = np.array(c["s2"])
+            e.randomize()
+            return (first, tuple(int(v) for v in e.group))
+        leaves = explore(f)
     elif d in ("randomize_group", "randomize_in_strata"):
         def f(t):
             fn = NPC.randomize_group if d == "randomize_group" else NPC.randomize_in_strata
@@ -354,6 +369,33 @@ def oracle(c, o):
         if dict(got) != dict(wantr):
             return {"why": f"stratified_two_sample {c}: the distribution of {'the arrangements handed to the statistic' if c['stat'] == 'rec' else 'the simulated statistic'} under an ideal generator, {[(k, str(v)) for k, v in sorted(got.items(), key=str)[:6]]}, is not the uniform law on the within-stratum arrangements, {[(k, str(v)) for k, v in sorted(wantr.items(), key=str)[:6]]}",
                     "cls": "stratified_two_sample:not-uniform"}
+        return None
+    if d == "restrat":
+        n = len(c["g"])
+        def within(base, strata):
+            per = [list(itertools.permutations([i for i in range(n) if strata[i] == k])) for k in sorted(set(strata))]
+            res = set()
+            for combo in itertools.product(*per):
+                out = [None] * n
+                for k, perm in zip(sorted(set(strata)), combo):
+                    pos = [i for i in range(n) if strata[i] == k]
+                    for i, v in zip(pos, perm): out[i] = base[v]
+                res.add(tuple(out))
+            return res
+        firsts = within(tuple(range(n)), c["s1"])
+        by_first = {}
+        for (fst, snd), v in w.items():
+            by_first.setdefault(fst, {})[snd] = by_first.setdefault(fst, {}).get(snd, 0) + v
+        if set(by_first) != firsts or len({sum(v.values()) for v in by_first.values()}) != 1:
+            return {"why": f"restrat {c}: first randomizations {sorted(by_first)[:4]}... are not uniform on the arrangements within {c['s1']}", "cls": "randomize_in_strata:not-uniform"}
+        for fst, sec in by_first.items():
+            want = within(fst, c["s2"])
+            if set(sec) != want:
+                return {"why": f"randomize_in_strata after the strata were changed in place from {c['s1']} to {c['s2']}: from {fst} it produced {sorted(sec)[:4]}..., the arrangements within the current strata are {sorted(want)[:4]}... (missing {sorted(want - set(sec))[:3]}, extra {sorted(set(sec) - want)[:3]})",
+                        "cls": "randomize_in_strata:support"}
+            if len(set(sec.values())) != 1:
+                return {"why": f"randomize_in_strata after a change of strata ({c['s1']} -> {c['s2']}): arrangements within the current strata not equally likely from {fst}: {[(k, str(v)) for k, v in list(sec.items())[:5]]}",
+                        "cls": "randomize_in_strata:not-uniform"}
         return None
     if d == "k_sample":
         g = c["g"]; reps = c["reps"]
